@@ -89,7 +89,7 @@ def evaluate(c):
     from mcx.props.c06 import excitation
     ground = c['env'] != 'free'
     if 'wires' in c:
-        case = dict(f=c['f'], env=c['env'], wires=c['wires'], sources=c['srcs'])
+        case = dict(f=c['f'], env=c['env'], wires=c['wires'], sources=geom.rotate_voltages(c['srcs']))
         name = c['name']
         straight1 = False
     else:
@@ -101,7 +101,7 @@ def evaluate(c):
         srcs, loads = excitation(c)
         if srcs is None:
             return dict(viol=[], skipped='no-feed-position', evals=0)
-        case['sources'] = srcs
+        case['sources'] = geom.rotate_voltages(srcs)
         name = '%s|%s|fine=%s' % (c['env'], [(e['a'], e['b'], e['n']) for e in c['st']], c['fine'])
         straight1 = len(c['st']) == 1 and not ground
     lam = c['lam']
@@ -110,7 +110,7 @@ def evaluate(c):
     except ValueError as e:
         return dict(viol=[], skipped='rejected:' + str(e)[:30], evals=0)
     m.compute()
-    if not (m.power > 0):
+    if not (geom.input_power(m) > 0):
         return dict(viol=[], skipped='non-positive input power', evals=1)
     viol, canon, worst, wn = [], [], 0.0, None
 
